@@ -22,7 +22,7 @@ MANIFEST = dict(
     technique='TLA+ closed data-phase model (TLC: stall reachable only via the lost window update) and closed model of the closing exchange TcpClose (no TIME-WAIT, forgotten connections reset, lazy readers, orderly Close: safety exhaustive, liveness under fairness; with the pre-fix behaviour it reaches F26) + fault enumeration on two real stacks: every single dropped frame of the exchange and (seeded / all) pairs, all shutdown orders, zero-window histories; traces validated by TLC against the C02 clauses of TraceTcp, stalls decided from quiescent STATES',
     text='For the reference exchanges (handshake, 2 data segments + FIN each way; half-close then data; one-sided and simultaneous close; a closed receive window with a late reader) every single frame and pairs of frames are dropped by the wire. TLC checks on each trace: EOS only after the FIN and all data; FIN placement; completion (everything written before shutdown delivered, then EOS); loss-free close leaves both endpoints closed without error; and a quiescent state with data or a FIN owed is rejected as a silent stall. Finding F1 (no zero-window probe) is matched by shape.',
     design='5 C02',
-    note='Liveness is judged from quiescent states (an armed retransmission timer that is overdue by more than 2 s with an idle protocol goroutine counts as dead) and from completion within a generous deadline; traces cut off by the deadline are still judged against every safety clause. Orderly Close() after EOS is exercised in all close orders with each packet of the exchange lost (F26 replay included); abortive closes only where an explicit error is an allowed outcome. TcpClose abstracts data to units, windows and congestion control away, and its timer never fires spuriously.')
+    note='Liveness is judged from quiescent states (an armed retransmission timer that is overdue by more than 2 s with an idle protocol goroutine counts as dead) and from completion within a generous deadline; traces cut off by the deadline are still judged against every safety clause. Orderly Close() after EOS is exercised in all close orders with each packet of the exchange lost (F26 replay included); abortive closes only where an explicit error is an allowed outcome. TcpClose abstracts data to units, windows and congestion control away, and its timer never fires spuriously. Wrap-adjacent initial sequence numbers (receiver window edges straddling 2^32 / 2^31 with a small buffer, a lost FIN whose number is exactly 0 / 2^31) are part of the families since round 8.')
 
 SPEC = ['tcp']
 KINDS = ['syn', 'synack', 'ack', 'data', 'fin']
